@@ -22,14 +22,14 @@ def build_sum_trees(sc):
     chunked byte sums equal the flat byte sum (spec-level induction)."""
     parts = [read("sum_trees_prelude.rs")]
     expect = ["lemma_sum_concat", "lemma_chunked_sum"]
-    for mod, nl, bound in (("x86_sse2", 8, 48), ("x86_sse4_1", 4, 96)):
+    for mod, nl, bound, ncalls in (("x86_sse2", 8, 48, (2, 4)), ("x86_sse4_1", 4, 96, (2, 4)), ("x86_avx2", 8, 96, (1, 2))):
         with open(os.path.join(OVERLAY, SRC + "compare/dist_body/%s/verif_kani.rs" % mod)) as fh:
             t = fh.read()
         m = re.search(r"// @verus-begin %s\n(.*?)// @verus-end" % mod, t, re.S)
         if not m:
             raise extract.ExtractError("lost-anchor: @verus-begin %s" % mod)
         body = m.group(1)
-        for n, calls in (("tree_32", 2), ("tree_64", 4)):
+        for n, calls in (("tree_32", ncalls[0]), ("tree_64", ncalls[1])):
             sig, b = extract.fn_text(body, n)
             flat = " + ".join("l[%d][%d]" % (i, j) for i in range(calls) for j in range(nl))
             parts.append("pub fn %s_%s(l: &[[u32; %d]; %d]) -> (r: u32)\n"
